@@ -370,11 +370,18 @@ func runEqual(c EqualCase, rec *h.Rec) error {
 		var eq, ok bool
 		_, pm := guarded(func() error { eq, ok = rawLibEqual(dir.x, dir.y); return nil })
 		if pm != "" {
-			site := pm
-			if i := strings.Index(site, ":"); i >= 0 {
-				site = site[:i]
+			key := "C08:equal:length-mismatch-ignored" // Matrix/Vector.Equal index the other operand without comparing lengths (cmp may report it as "non-symmetric")
+			switch {
+			case strings.Contains(pm, "(*MetaData).Equal"):
+				key = "C08:equal:MetaData-nil-panic"
+			case !strings.Contains(d, ":len "):
+				site := pm
+				if i := strings.Index(site, ":"); i >= 0 {
+					site = site[:i]
+				}
+				key = "C08:equal:panic@" + site
 			}
-			if e := fail("C08:equal:panic@"+site, T+": "+dir.name+" panics: "+pm+" (structural difference: "+d+")"); e != nil {
+			if e := fail(key, T+": "+dir.name+" panics: "+pm+" (structural difference: "+d+")"); e != nil {
 				return e
 			}
 			continue
@@ -390,7 +397,11 @@ func runEqual(c EqualCase, rec *h.Rec) error {
 				return e
 			}
 		case !same && eq && shapeDiff(d):
-			if e := fail("C08:equal:"+T+":true-on-different-shape", dir.name+" is true although the objects differ in shape at "+d); e != nil {
+			key := "C08:equal:" + T + ":true-on-different-shape"
+			if strings.Contains(d, ":len ") {
+				key = "C08:equal:length-mismatch-ignored" // a prefix counts as equal
+			}
+			if e := fail(key, T+": "+dir.name+" is true although the objects differ in shape at "+d); e != nil {
 				return e
 			}
 		}
